@@ -685,6 +685,8 @@ func runC09(c *Ctx) {
 	c09Calls(c) // ---- 2c. call statements: CallStm.format / call_stm (c09call.go)
 	c09Decl(c)  // ---- 2d. type names, parameter lists, struct and filetype declarations (c09decl.go)
 
+	c09Call2(c) // ---- 2d. full call statements, return, retain, pipeline bodies (c09call2.go)
+
 	// ---- 3. formatter monitors ----
 	progSeeds, _ := c08LoadSeeds(c)
 	for _, s := range progSeeds {
